@@ -8,6 +8,8 @@ TB = ("Trusted base: Coq 8.16.1 kernel + vm_compute (no native_compute); no axio
       "crypto/x509/asn1/pem/json, protobuf, go-configfs-tsm, go-eventlog, the Go runtime and the OS. ")
 TECH = "Coq theorems over an executable Gallina model (regenerated constants/tables) + extraction-based differential correspondence against /repo with a ground-truth oracle"
 props = {
+ "C09": ("Theorems C09_parse_ser (serialise(parse raw) = raw for every accepted byte string), C09_signed_prefix (re-serialised header/body = bytes 0..631), C09_ser_parse (every well-formed message survives serialise-then-parse), C09_accepts_exactly (parser accepts exactly the serialisations of well-formed messages), C09_fields (every field is the literal-offset little-endian slice Intel's layout prescribes) and C09_tables (the field/offset/check tables the translator recovers from abi.go equal the specification's); the model parser/serialiser is run against abi.QuoteToProto / QuoteToAbiBytes / CheckQuoteV4 / the exported sub-serialisers on thousands of byte strings and messages per run, with an independent layout parser as ground truth.",
+         "6 (C09), Appendix A.1", "Input lengths are assumed < 2^32 (the uint32 conversions of len in abi.go are not modelled); nil and empty byte fields are identified (as proto.Equal does)."),
  "C15": ("Theorems C15_ok_iff / C15_total / C15_no_crash / C15_relay / C15_device_bytes / C15_provider / C15_fallback over every scripted device and provider behaviour; the model is run against client.GetRawQuote on the full grid of device outcomes on every check.",
          "6 (C15)", "The device is a scripted behaviour record (what it writes, result codes, status, OutLen); the ioctl layer and /dev/tdx_guest are not modelled; the device fallback of the provider path can only be observed failing in the sandbox."),
 }
